@@ -417,6 +417,22 @@ func TestVerif_C14(t *testing.T) {
 		}
 	})
 
+	// ---- part 2c: one foreign byte adjacent to an allowed name - every byte value, left / right / both, alone and
+	// next to a legitimate OWS byte, as the only element and between other elements (through the public API as well)
+	r.Parallel(1, func(l *Local) {
+		cs := newC14Set([]string{"x-foo", "content-type"})
+		for v := 0; v < 256; v++ {
+			b := string([]byte{byte(v)})
+			for _, el := range []string{b + "x-foo", "x-foo" + b, b + "x-foo" + b, " " + b + "x-foo", "x-foo" + b + " ", b + " x-foo", "x-foo " + b, b, b + b} {
+				for _, lines := range [][]string{{el}, {"content-type," + el}, {"content-type", el}, {el + ",zzz"}} {
+					c14RunCase(r, l, cs, lines, true)
+					l.nontrivN++
+				}
+			}
+		}
+	})
+	r.Exhaustive("every byte value placed left / right / on both sides of an allowed name (9 placements x 4 contexts), through headers.Check and the public API")
+
 	// ---- part 3: 16 vs 17 empties across lines, every distribution over up to 3 lines around one name
 	r.Parallel(1, func(l *Local) {
 		cs := newC14Set([]string{"a", "b"})
